@@ -266,11 +266,44 @@ func emitBuiltins(em *Emitter, repoDir string, seedv int64, pass int) {
 		return
 	}
 	// the shipped lists are used first (as opgen does): they must still be identical to their data files afterwards
-	for _, ws := range [][]string{spg.AgileWords, spg.AgileSyllables} {
+	for li, ws := range [][]string{spg.AgileWords, spg.AgileSyllables} {
 		if wl, err := spg.NewWordList(ws); err == nil {
 			r := spg.NewWLRecipe(3, wl)
 			r.Capitalize = spg.CSOne
 			r.Generate()
+			// ... and after capitalising recipes have drawn from a shipped list many times, the constructor's recipe on the SAME list
+			// still means "no capitalisation, no separator": every atom is an entry of the list as shipped
+			for _, cs := range []spg.CapScheme{spg.CSAll, spg.CSRandom, spg.CSFirst} {
+				rc := spg.NewWLRecipe(4, wl)
+				rc.Capitalize = cs
+				for k := 0; k < 120; k++ {
+					rc.Generate()
+				}
+			}
+			entry := map[string]bool{}
+			for _, w := range ws {
+				entry[w] = true
+			}
+			def := spg.NewWLRecipe(3, wl)
+			foreign, seps, atoms := 0, 0, 0
+			example := ""
+			for k := 0; k < 400; k++ {
+				p, err := def.Generate()
+				if err != nil || p == nil {
+					foreign++
+					continue
+				}
+				seps += len(p.Tokens().Separators())
+				for _, a := range p.Tokens().Atoms() {
+					atoms++
+					if !entry[a] {
+						foreign++
+						example = a
+					}
+				}
+			}
+			em.Emit(map[string]interface{}{"op": "newwlafter", "list": li, "atoms": atoms, "foreign": foreign, "seps": seps, "example": CPs(example),
+				"cap": string(def.Capitalize), "sepChar": CPs(def.SeparatorChar), "sepFuncNil": b2i(def.SeparatorFunc == nil)})
 		}
 	}
 	for _, l := range []struct {
